@@ -100,6 +100,69 @@ def generic_iterator_finite(facts, body, ti):
     return res, names
 
 
+def local_iter_exhausts(facts, ti, pump_callees, eof_variants):
+    """A crate-local iterator that wraps the event pump: its own `next` is analysed with every pump call replaced by the
+    end-of-input event; if every outcome is then `None`, the iterator ends when the input ends (True).  None when the type
+    has no local `next`, the pump is not called from it, or an outcome cannot be read."""
+    from engine.interp import Engine
+    from engine.contracts import ret_ty
+    from engine.values import Enum, Top
+    t = facts.ty(ti)
+    while t["k"] in ("ref", "ptr"):
+        t = facts.ty(t["to"])
+    if t["k"] != "adt":
+        return None
+    nxt = None
+    for imp in facts.impls:
+        if str(imp.get("trait", "")).endswith("iter::Iterator") and (imp["self"] == t["path"] or imp["self"].startswith(t["path"] + "<")):
+            for it in imp["items"]:
+                if it["name"] == "next" and it["path"] in facts.bodies:
+                    nxt = it["path"]
+    if nxt is None:
+        return None
+    eng = Engine(facts)
+    fired = [0]
+
+    def on_call(eng_, st, fr, f, args, site):
+        tgt = cfg.fn_target(f)
+        if not any(re.search(p, tgt) or re.search(p, f["path"]) for p in pump_callees):
+            return None
+        rt = ret_ty(eng_, site)
+        v = eng_.M.force(st, Top(rt, "pump")) if rt is not None else None
+        if not isinstance(v, Enum):
+            return None
+        for vi, fs in v.variants:
+            if eng_.T.variant_name(v.ty, vi) != "Ok" or not fs:
+                continue
+            ev = fs[0]
+            if isinstance(ev, Top):
+                ev = eng_.M.force(st, ev)
+            if not isinstance(ev, Enum):
+                return None
+            want = eof_variants.get(eng_.T.t(ev.ty).get("path"))
+            keep = tuple((j, jf) for j, jf in ev.variants if eng_.T.variant_name(ev.ty, j) == want)
+            if not keep:
+                return None
+            fired[0] += 1
+            return [(st, Enum(v.ty, ((vi, (Enum(ev.ty, keep, ev.name),)),), "pump"))]
+        return None
+
+    eng.on_call = on_call
+    b = facts.body(nxt)
+    try:
+        outs = eng.call_path(nxt, eng.symbolic_args(b))
+    except Exception:
+        return None
+    if not fired[0] or not outs:
+        return None
+    for st, rv in outs:
+        if not isinstance(rv, Enum):
+            return None
+        if [eng.T.variant_name(rv.ty, vi) for vi, _ in rv.variants] != ["None"]:
+            return False
+    return True
+
+
 def own_blocks(loop, loops):
     own = set(loop["blocks"])
     for other in loops:
@@ -146,6 +209,9 @@ def classify_loops(facts, body, pump_callees, eof_variants):
                 continue
             self_ty = f.get("self_ty")
             fin = iterator_finite(facts, self_ty) if self_ty is not None else None
+            if fin is None and self_ty is not None and pump_callees and local_iter_exhausts(facts, self_ty, pump_callees, eof_variants):
+                fin = True
+                info["local_iterator"] = "next() returns None when the event pump reports end of input"
             if fin is None and self_ty is not None and facts.ty(self_ty)["k"] in ("param", "alias"):
                 fin, inst_names = generic_iterator_finite(facts, body, self_ty)
                 if inst_names:
